@@ -95,19 +95,21 @@ Qed.
 
 (* FRESHNESS: in any history, the blocks served to two different operations whose draws all succeeded come
    from disjoint index ranges; hence under a source that never repeats a block they are pairwise different *)
-Theorem distinct_ops_distinct_blocks {A} R i (ops : list (list nat * (list bytes -> result A))) p q sp bp sq bq dp dq a c :
-  fresh R -> p < q ->
+Theorem distinct_ops_distinct_blocks {A} R hi i (ops : list (list nat * (list bytes -> result A))) p q sp bp sq bq dp dq a c :
+  fresh_below R hi -> start_of R i ops q + c < hi -> p < q ->
   nth_error ops p = Some (sp, bp) -> nth_error ops q = Some (sq, bq) ->
   draw_all R (start_of R i ops p) sp = Some dp -> draw_all R (start_of R i ops q) sq = Some dq ->
   a < length sp -> c < length sq -> nth a dp [] <> [] ->
   nth a dp [] <> nth c dq [].
 Proof.
-  intros HF Hlt Hp Hq Dp Dq Ha Hc Hne.
+  intros HF Hhi Hlt Hp Hq Dp Dq Ha Hc Hne.
   pose proof (later_op_starts_after R i ops p q sp bp Hlt Hp) as Hstart.
   destruct (run_op_ok R (start_of R i ops p) sp bp dp Dp) as [Erun Hdp].
   rewrite Erun in Hstart. cbn [snd] in Hstart.
   apply draw_all_spec in Dq as [_ Hdq].
   apply (HF (start_of R i ops p + a) (start_of R i ops q + c) (nth a sp 0) (nth c sq 0)).
+  - lia.
+  - exact Hhi.
   - lia.
   - apply Hdp. exact Ha.
   - apply Hdq. exact Hc.
@@ -168,6 +170,24 @@ Qed.
 (* [fresh] is satisfiable: a counter source (block i = i+1 bytes 01) never repeats a block.  (A source of
    fixed-width blocks cannot be fresh on ALL of nat; [fresh] is the idealisation "no repeat ever", and
    [distinct_ops_distinct_indices] is the part that needs no idealisation.) *)
+(* a total source that honours the requested length and is fresh for its first 256 calls: call i serves the
+   little-endian encoding of i in the requested width *)
+Definition le_counter_rng : rng := fun i n => Some (le_bytes n (N.of_nat i)).
+Lemma le_counter_rng_len i n x : le_counter_rng i n = Some x -> length x = n.
+Proof. unfold le_counter_rng. intros E; inversion E. apply le_bytes_length. Qed.
+Lemma le_counter_rng_fresh_below : fresh_below le_counter_rng 256.
+Proof.
+  unfold fresh_below, le_counter_rng. intros i j n m x y Hi Hj Hij Hx Hy Hne E.
+  assert (Ex : x = le_bytes n (N.of_nat i)) by congruence. assert (Ey : y = le_bytes m (N.of_nat j)) by congruence.
+  rewrite Ex, Ey in E.
+  assert (n = m) by (apply (f_equal (@List.length _)) in E; rewrite !le_bytes_length in E; exact E). subst m.
+  assert (Hn : n <> 0). { intros ->. apply Hne. rewrite Ex. reflexivity. }
+  apply (f_equal le_val) in E. rewrite !le_val_le_bytes in E.
+  assert (Hp : (256 <= 256 ^ N.of_nat n)%N).
+  { change 256%N with (256 ^ 1)%N at 1. apply N.pow_le_mono_r; lia. }
+  rewrite !N.mod_small in E by lia. lia.
+Qed.
+
 Definition counter_rng : rng := fun i _ => Some (repeat x01 (S i)).
 Lemma counter_rng_fresh : fresh counter_rng.
 Proof.
@@ -175,3 +195,86 @@ Proof.
   assert (Ex : x = repeat x01 (S i)) by congruence. assert (Ey : y = repeat x01 (S j)) by congruence.
   rewrite Ex, Ey in E. apply (f_equal (@List.length _)) in E. rewrite !repeat_length in E. lia.
 Qed.
+
+(* ---- the modelled operations inside the draw monad: draws first (sizes as in [op_draws]), then the scheme's
+        seal / wrap on the drawn blocks.  Fail-closed and "the random field IS the draw" for the composed
+        operation, and the headline statement: two seals of the same message under the same key carry
+        different nonces. ---- *)
+Section Ops.
+  Definition local_seal_op (P : lparams) (R : rng) (i : nat) (key enc m f a : bytes) : result bytes * nat :=
+    run_op R i [32] (fun bs => match bs with [n0] => lg_seal P key enc (n0 ++ m) f a | _ => Panic "rng: block count" end).
+  Definition pie_wrap_op (P : pie_params) (R : rng) (i : nat) (header wk key : bytes) : result bytes * nat :=
+    run_op R i [32] (fun bs => match bs with [n] => pie_wrap P header wk key n | _ => Panic "rng: block count" end).
+  Definition pw_wrap_op (P : pw_params) (R : rng) (i : nat) (header pass params key : bytes) : result bytes * nat :=
+    run_op R i [pw_salt_len P; pw_nonce_len P]
+      (fun bs => match bs with [s; n] => pw_wrap P header pass params key s n | _ => Panic "rng: block count" end).
+
+  Theorem local_seal_op_fail_closed P R i key enc m f a :
+    R i 32 = None -> local_seal_op P R i key enc m f a = (Err CryptoError, S i).
+  Proof. intros H. unfold local_seal_op, run_op. cbn [draw_all calls_made]. rewrite H. f_equal. lia. Qed.
+
+  Theorem local_seal_op_embeds P R i key enc m f a n0 p j :
+    R i 32 = Some n0 -> length n0 = 32 -> lp_synth P = (fun n _ => n) ->
+    local_seal_op P R i key enc m f a = (Ok p, j) -> take 32 p = n0 /\ j = S i.
+  Proof.
+    intros H Hl Hs. unfold local_seal_op, run_op. cbn [draw_all]. rewrite H. cbn [length].
+    intros E. injection E as E1 E2. split; [|lia].
+    eapply local_nonce_is_draw; eassumption.
+  Qed.
+
+  (* two seals, one after the other on one thread, of ANY messages (the same one included) under ANY keys: the
+     nonce fields differ, for every source that honours the length at the two calls and does not repeat itself
+     among its first [hi] calls *)
+  Theorem consecutive_local_seals_have_different_nonces P R hi i key enc m f a key' enc' m' f' a' p1 p2 j k :
+    fresh_below R hi -> S i < hi -> lp_synth P = (fun n _ => n) ->
+    (forall x, R i 32 = Some x -> length x = 32) -> (forall x, R (S i) 32 = Some x -> length x = 32) ->
+    local_seal_op P R i key enc m f a = (Ok p1, j) ->
+    local_seal_op P R j key' enc' m' f' a' = (Ok p2, k) ->
+    take 32 p1 <> take 32 p2.
+  Proof.
+    intros HF Hhi Hs L1 L2 E1 E2.
+    destruct (R i 32) as [n1|] eqn:D1.
+    2:{ rewrite (local_seal_op_fail_closed P R i key enc m f a D1) in E1. discriminate. }
+    destruct (local_seal_op_embeds P R i key enc m f a n1 p1 j D1 (L1 _ eq_refl) Hs E1) as [T1 ->].
+    destruct (R (S i) 32) as [n2|] eqn:D2.
+    2:{ rewrite (local_seal_op_fail_closed P R (S i) key' enc' m' f' a' D2) in E2. discriminate. }
+    destruct (local_seal_op_embeds P R (S i) key' enc' m' f' a' n2 p2 k D2 (L2 _ eq_refl) Hs E2) as [T2 _].
+    rewrite T1, T2. apply (HF i (S i) 32 32 n1 n2); try lia; try assumption.
+    intros ->. specialize (L1 _ eq_refl). discriminate.
+  Qed.
+
+  Theorem pie_wrap_op_fail_closed P R i header wk key :
+    R i 32 = None -> pie_wrap_op P R i header wk key = (Err CryptoError, S i).
+  Proof. intros H. unfold pie_wrap_op, run_op. cbn [draw_all calls_made]. rewrite H. f_equal. lia. Qed.
+
+  Theorem pie_wrap_op_embeds P R i header wk key n blob j :
+    R i 32 = Some n -> length n = 32 -> (forall wk n msg, length (pie_mac P wk n msg) = pie_tlen P) ->
+    pie_wrap_op P R i header wk key = (Ok blob, j) -> take 32 (drop (pie_tlen P) blob) = n /\ j = S i.
+  Proof.
+    intros H Hl Hm. unfold pie_wrap_op, run_op. cbn [draw_all]. rewrite H. cbn [length].
+    intros E. assert (E1 : pie_wrap P header wk key n = Ok blob) by congruence. assert (E2 : i + 1 = j) by congruence.
+    split; [|lia]. exact (pie_nonce_is_draw P header wk key n blob Hl Hm E1).
+  Qed.
+
+  (* PBKW: a failure of EITHER draw (salt or nonce) gives the error; no blob from a default salt or nonce *)
+  Theorem pw_wrap_op_fail_closed P R i header pass params key :
+    R i (pw_salt_len P) = None \/ (exists s, R i (pw_salt_len P) = Some s /\ R (S i) (pw_nonce_len P) = None) ->
+    fst (pw_wrap_op P R i header pass params key) = Err CryptoError.
+  Proof.
+    intros [H|(s & H1 & H2)]; unfold pw_wrap_op, run_op; cbn [draw_all].
+    - rewrite H. reflexivity.
+    - rewrite H1, H2. reflexivity.
+  Qed.
+
+  Theorem pw_wrap_op_embeds P R i header pass params key s n blob j :
+    R i (pw_salt_len P) = Some s -> R (S i) (pw_nonce_len P) = Some n ->
+    length s = pw_salt_len P -> length n = pw_nonce_len P -> length params = pw_par_len P ->
+    pw_wrap_op P R i header pass params key = (Ok blob, j) ->
+    take (pw_salt_len P) blob = s /\ take (pw_nonce_len P) (drop (pw_salt_len P + pw_par_len P) blob) = n /\ j = S (S i).
+  Proof.
+    intros H1 H2 Ls Ln Lp. unfold pw_wrap_op, run_op. cbn [draw_all]. rewrite H1, H2. cbn [length].
+    intros E. injection E as E1 E2.
+    destruct (pbkw_salt_nonce_are_draws P header pass params key s n blob Ls Lp Ln E1) as [A B].
+    repeat split; [exact A|exact B|lia].
+  Qed.
+End Ops.
